@@ -5,6 +5,7 @@ import (
 	"bytes"
 	"encoding/base64"
 	"encoding/binary"
+	"encoding/hex"
 	"encoding/json"
 	"fmt"
 	"net/http/httptest"
@@ -31,6 +32,27 @@ func (rawEnc) Unmarshal(buf []byte, msg drpc.Message) error {
 	return nil
 }
 
+// jsonEnc is an encoding that brings its own JSON form (the gateway must prefer it over the
+// generic base64 fallback): the JSON form is {"hex":"<hex of the bytes>"}.
+type jsonEnc struct{ rawEnc }
+
+func (jsonEnc) JSONMarshal(msg drpc.Message) ([]byte, error) {
+	return []byte(fmt.Sprintf(`{"hex":"%x"}`, *(msg.(*[]byte)))), nil
+}
+
+func (jsonEnc) JSONUnmarshal(buf []byte, msg drpc.Message) error {
+	var v struct{ Hex string }
+	if err := json.Unmarshal(buf, &v); err != nil {
+		return err
+	}
+	b, err := hex.DecodeString(v.Hex)
+	if err != nil {
+		return err
+	}
+	*(msg.(*[]byte)) = b
+	return nil
+}
+
 type hf func(stream drpc.Stream, rpc string) error
 
 func (h hf) HandleRPC(stream drpc.Stream, rpc string) error { return h(stream, rpc) }
@@ -48,11 +70,13 @@ type metaEntry struct {
 }
 
 type httpCase struct {
-	CT   string
-	Req  []byte
-	Msgs [][]byte
-	Err  *gens.ErrSpec
-	Meta []metaEntry
+	// OwnJSON: the handler's encoding provides JSONMarshal/JSONUnmarshal itself
+	OwnJSON bool
+	CT      string
+	Req     []byte
+	Msgs    [][]byte
+	Err     *gens.ErrSpec
+	Meta    []metaEntry
 }
 
 func esc(s []byte, upper bool) string {
@@ -167,19 +191,23 @@ func runHTTP(c httpCase) (r pbt.Result) {
 	var gotMeta map[string]string
 	called, recvFailed := 0, false
 	sendErrs := 0
+	var henc drpc.Encoding = rawEnc{}
+	if c.OwnJSON {
+		henc = jsonEnc{}
+	}
 	h := drpchttp.New(hf(func(s drpc.Stream, rpc string) error {
 		called++
 		md, _ := drpcmetadata.Get(s.Context())
 		gotMeta = md
 		var b []byte
-		if err := s.MsgRecv(&b, rawEnc{}); err != nil {
+		if err := s.MsgRecv(&b, henc); err != nil {
 			recvFailed = true
 			return err
 		}
 		gotReq = b
 		for _, m := range c.Msgs {
 			m := m
-			if err := s.MsgSend(&m, rawEnc{}); err != nil {
+			if err := s.MsgSend(&m, henc); err != nil {
 				sendErrs++
 				return err
 			}
@@ -189,6 +217,9 @@ func runHTTP(c httpCase) (r pbt.Result) {
 	payload := c.Req
 	if jsonMode {
 		payload, _ = json.Marshal(c.Req)
+		if c.OwnJSON {
+			payload = []byte(fmt.Sprintf(`{"hex":"%x"}`, c.Req))
+		}
 	}
 	body := payload
 	if grpcweb {
@@ -260,11 +291,17 @@ func runHTTP(c httpCase) (r pbt.Result) {
 		r.Label("meta")
 	}
 	enc := func(m []byte) []byte {
+		if jsonMode && c.OwnJSON {
+			return []byte(fmt.Sprintf(`{"hex":"%x"}`, m))
+		}
 		if jsonMode {
 			b, _ := json.Marshal(m)
 			return b
 		}
 		return m
+	}
+	if c.OwnJSON && jsonMode {
+		r.Label("encoding_with_own_json")
 	}
 	isErr := c.Err != nil
 	errText := ""
@@ -506,7 +543,7 @@ func genMetaEntry(allowMalformed bool) *rapid.Generator[metaEntry] {
 
 func genHTTP() *rapid.Generator[httpCase] {
 	return rapid.Custom(func(t *rapid.T) httpCase {
-		c := httpCase{CT: rapid.SampledFrom(contentTypes).Draw(t, "ct")}
+		c := httpCase{CT: rapid.SampledFrom(contentTypes).Draw(t, "ct"), OwnJSON: rapid.Bool().Draw(t, "ownjson")}
 		grpcweb := strings.HasPrefix(c.CT, "application/grpc-web")
 		c.Req = rapid.SliceOfN(rapid.Byte(), 0, 60).Draw(t, "req")
 		n := 1
